@@ -97,10 +97,16 @@ fn run(args: &[String]) {
     }
     let wall = t0.elapsed().as_secs_f64();
     // harness panics are never violations
+    let mut per_sig: std::collections::BTreeMap<String, usize> = std::collections::BTreeMap::new();
     let viols: Vec<J> = rep
         .violations
         .iter()
-        .take(200)
+        .filter(|v| {
+            let c = per_sig.entry(v.signature.clone()).or_insert(0);
+            *c += 1;
+            *c <= 3
+        })
+        .take(600)
         .map(|v| {
             J::obj()
                 .set("property", v.prop)
